@@ -104,6 +104,15 @@ func (x *Exec) binop(op token.Token, a, b Value, opType, resType types.Type) Val
 		return r
 	}
 	switch op {
+	case token.EQL, token.NEQ:
+		if r := x.tokenByteCmp(a, b, opType); r != nil {
+			if op == token.NEQ {
+				return tNot(r)
+			}
+			return r
+		}
+	}
+	switch op {
 	case token.EQL:
 		return x.eqVal(a, b)
 	case token.NEQ:
@@ -616,4 +625,48 @@ func (x *Exec) fbinop(op token.Token, a, b *Term) Value {
 	}
 	x.abort("UNSUPPORTED", "float binop "+op.String())
 	return nil
+}
+
+// tokenByteCmp decides "a byte of a JSON text == a literal byte" where the text is a token standing for the encoding
+// of a string: such a text begins and ends with '"' (the token is one element, so any index is both its first and its
+// last byte; a test against anything else is answered as "differs"). Other tokens keep their opaque identity.
+func (x *Exec) tokenByteCmp(a, b Value, t types.Type) *Term {
+	bt, ok := t.Underlying().(*types.Basic)
+	if !ok || bt.Kind() != types.Uint8 {
+		return nil
+	}
+	ta, okA := a.(*Term)
+	tb, okB := b.(*Term)
+	if !okA || !okB || !ta.IsConc() || !tb.IsConc() || ta.S != SInt || tb.S != SInt {
+		return nil
+	}
+	ka, kb := ta.C.(int64), tb.C.(int64)
+	if kb >= 1000 {
+		ka, kb = kb, ka
+	}
+	if ka < 1000 || kb >= 256 || int(ka-1000) >= len(x.tokens) {
+		return nil
+	}
+	ti, _ := x.tokens[ka-1000].(*tokenInfo)
+	if ti == nil || ti.kind != "json" {
+		return nil
+	}
+	arg := ti.arg
+	if iv, ok := arg.(*IfaceV); ok && iv != nil {
+		arg = iv.V
+	}
+	if !isStringVal(arg) {
+		return nil
+	}
+	return mkBool(kb == '"')
+}
+
+func isStringVal(v Value) bool {
+	switch t := v.(type) {
+	case *StrV:
+		return true
+	case *Term:
+		return t.S == SStr
+	}
+	return false
 }
